@@ -119,6 +119,7 @@ func genAllocConc(c *ctx) {
 			s.exec(c, fmt.Sprintf("arace %s %d %d", hint, 2+c.rng.Intn(7), 400))
 			s.exec(c, fmt.Sprintf("afrace %d %d", 2+c.rng.Intn(5), 400))
 			s.exec(c, fmt.Sprintf("achurn %d %d", 4+c.rng.Intn(13), 300))
+			s.exec(c, fmt.Sprintf("ahchurn %d %d", 4+c.rng.Intn(9), 3000))
 		}
 		for round := 0; round < 4 && c.count < c.n && !s.wedged; round++ {
 			if c.rng.Intn(2) == 0 || len(held) == 0 {
